@@ -264,10 +264,49 @@ def graph_node_case():
                                      "RDSystem.get_state", "RDSystem.set_state"])
 
 
-def env_index_case(space_kind):
-    """environment map naming an environment beyond the list must not yield a state"""
-    cid = "environment-index/" + space_kind
+def list_item_case(name, dimname, build):
+    """a list whose items are quantities: every item must have the field's dimension"""
+    cid = "dimension/%s-list-item" % name
     P = "C20/" + cid
+
+    def run(api):
+        U = api.mod("units")
+        same_system = api.choice("same_system", 2)
+        us = M.mk_system(api, "o")
+        q = mk(api, "q", "uv")
+        if same_system:
+            q = U.UnitValue(q.value, U.Units(us, q.units.dim))
+        good_item = U.UnitValue(api.real("g"), U.Units(us, U.UnitsDimensions(**DIMS[dimname])))
+        out = api.call(lambda: build(api, us, [good_item, q]))
+        good = dims_match(api, q, DIMS[dimname])
+        if not out.ok:
+            api.check(P + "/raises_only_if_wrong_dimension", api.not_(good), "raised %r" % (out.exc,))
+        else:
+            api.check(P + "/accepted_only_if_right_dimension", good)
+
+    return Case(cid, run, functions=[name, "UnitArray.set_value", "UnitArray.__init__"])
+
+
+def _script_us(api, us, **kw):
+    N = api.mod("rdnetwork")
+    R = api.mod("rdsystem")
+    S = api.mod("rdscript")
+    net = N.RDNetwork([N.Species("A")], [])
+    return S.RDScript(system=R.RDSystem(net), units_system=us, **kw)
+
+
+def _system_us(api, us, state):
+    N = api.mod("rdnetwork")
+    R = api.mod("rdsystem")
+    G = api.mod("rdgridspace")
+    net = N.RDNetwork([N.Species("A")], [])
+    return R.RDSystem(net, G.RDGridSpace(w=2), state=state, units_system=us)
+
+
+def env_index_case(space_kind, explicit_state=False):
+    """environment map naming an environment beyond the list must not yield a state"""
+    cid = "environment-index/" + space_kind + ("/explicit-state" if explicit_state else "")
+    P = "C20/environment-index/" + space_kind
 
     def run(api):
         R = api.mod("rdsystem")
@@ -281,7 +320,10 @@ def env_index_case(space_kind):
             GS = api.mod("rdgraphspace")
             sp = GS.RDGraphSpace(nodes=[GS.RDGraphSpaceNode(environment=0), GS.RDGraphSpaceNode(environment=e)],
                                  edges=[GS.RDGraphSpaceEdge(0, 1)])
-        out = api.call(lambda: R.RDSystem(net.obj, sp))
+        if explicit_state:
+            out = api.call(lambda: R.RDSystem(net.obj, sp, state=[1.0, 2.0], chemostats=[0, 1]))
+        else:
+            out = api.call(lambda: R.RDSystem(net.obj, sp))
         if out.ok:
             api.check(P + "/system_built_only_if_environment_listed", api.not_(bad))
         else:
@@ -437,6 +479,10 @@ CASES.append(are_neighbors_position_case())
 CASES.append(graph_node_case())
 CASES.append(env_index_case("grid"))
 CASES.append(env_index_case("graph"))
+CASES.append(env_index_case("grid", explicit_state=True))
+CASES.append(env_index_case("graph", explicit_state=True))
+CASES.append(list_item_case("RDScript.t_sample", "time", lambda api, us, items: _script_us(api, us, t_sample=items)))
+CASES.append(list_item_case("RDSystem.state", "quantity", lambda api, us, items: _system_us(api, us, items)))
 CASES.append(Case("finite/keys-modes-symbols", finite_case, functions=["process_input_dict_keys", "*_from_dict",
                   "RDGridSpace.set_boundary_conditions", "RDScript.sampling_policy", "RDScript.init_state_processing",
                   "RDNetwork.environments", "UnitsSystem setters", "RDNetwork.get_species_index"], sym=False,
